@@ -16,7 +16,7 @@ FixSc(c) ==
 ScensC == [i \in 1..Len(ScJ) |-> FixSc(ScJ[i])]
 
 StateRec == [sc |-> sc, tip |-> tip, sub |-> sub, app |-> app, pc |-> pc, utxo |-> utxo, pool1 |-> pool1,
-             pool2 |-> pool2, offered |-> offered, mustKeep |-> mustKeep, stale |-> stale]
+             pool2 |-> pool2, offered |-> offered, mustKeep |-> mustKeep, kept0 |-> kept0, stale |-> stale]
 
 EmitEdge == PrintT("EDGE " \o ToJson([from |-> StateRec, act |-> act', reply |-> reply', to |-> StateRec']))
 =============================================================================
